@@ -3,9 +3,9 @@
 EXTENDS ProofModel
 CONSTANTS CoverDepth
 
-\* Case generation: TLC expands every distinct (working tree, latest version, latest saved
-\* tree) once and prints every outgoing transition; a Prove transition carries all
-\* mutation cases of one query.
+\* Case generation: TLC expands every distinct (working tree, latest version) once -- the view
+\* drops the older saved trees, which is a coverage choice, not a soundness one -- and prints
+\* every outgoing transition; a Prove transition carries all mutation cases of one query.
 ProofCover == ProofNext /\ PrintT(ToJson(hist'))
 wview == <<working, latest>>
 CoverBound == Len(hist) <= CoverDepth
